@@ -881,12 +881,12 @@ def preflight(seed, tier, known):
     rules = psl.RuleSet(rule_list)
     hosts = derive_hosts(rule_list)
     # random label sequences over the labels of the list
-    vocab = sorted(set(l for x in rule_list for l in x.lstrip("!").split(".") if l != "*"))
+    vocab = sorted(set(l for x in rule_list for l in x.lstrip("!").split(".") if l and l != "*"))
     rng = random.Random(int.from_bytes(hashlib.sha256(("C08|preflight|%d" % seed).encode()).digest()[:8], "big"))
     n_random = 4000 if tier == "quick" else 60000
     for _ in range(n_random):
         hosts.append(tuple(rng.choice(vocab) for _ in range(rng.choice([1, 2, 2, 3, 3, 4]))))
-    hosts = [h for h in hosts if not (len(h) == 4 and all(l.isdigit() for l in h)) and h != ("localhost",)]
+    hosts = [h for h in hosts if all(h) and not (len(h) == 4 and all(l.isdigit() for l in h)) and h != ("localhost",)]
     api = TldApi(tld)
     base = Base({}, stats, known)
     violations = []
